@@ -69,7 +69,7 @@ structure Ring where
   zone : Name
   cls : Nat
   entries : List Entry3
-deriving Repr
+deriving Repr, DecidableEq
 
 /-- per-record admissibility of `prepareNSEC3Set` (every failure is
 `ErrNSECMissingCoverage`): class set, owner exactly one label below the
@@ -247,6 +247,26 @@ def verifyDelegation (H : HashFn) (records : List Nsec3) (signer : Name) (d : Na
         match findCoverer H ring (nextCloser d k) with
         | .error e => .error e
         | .ok nc => if nc.flags % 2 == 1 then .ok () else .error .optOut
+
+/-- `VerifyWildcardAnswerForZoneWithWork` over NSEC3 records (no NSEC in the
+authority section): per expanded RRSIG the ring is prepared for the signer and
+the next closer name looked up; a cover is needed (`ErrWildcardNoDenial`
+otherwise), an Opt-Out cover makes the answer insecure. -/
+def verifyWildcardNSEC3 (H : HashFn) (records : List Nsec3) (signer : Name) : List AnsSig → Except Err Bool
+  | [] => .ok true
+  | g :: rest =>
+    if g.labels ≥ g.owner.length then verifyWildcardNSEC3 H records signer rest
+    else if records.isEmpty then .error .noDenial
+    else match prepare records signer with
+      | .error e => .error e
+      | .ok ring =>
+        match lookup H ring g.nextCloser with
+        | .error e => .error e
+        | .ok (_, none) => .error .noDenial
+        | .ok (_, some c) =>
+          match verifyWildcardNSEC3 H records signer rest with
+          | .error e => .error e
+          | .ok secure => .ok (secure && c.flags % 2 == 0)
 
 /-! ### EvaluateAggressiveNSEC3 -/
 
